@@ -1817,17 +1817,15 @@ static int32 getTicketKeys(ssl_t *ssl, unsigned char *c,
         /* found it */
         if (cachedTicket == 0)
         {
-            /* it's been found and added at end of list.  confirm this */
+            /* The user claims to have added it. Confirm this by name: the
+               lock was released, other threads may have added or removed
+               keys since, so it need not be the last of the list */
             lkey = ssl->keys->sessTickets;
-            if (lkey == NULL)
-            {
-                return PS_FAILURE; /* user claims they added, but empty */
-            }
-            while (lkey->next)
+            while (lkey && Memcmp(lkey->name, c, 16) != 0)
             {
                 lkey = lkey->next;
             }
-            if (Memcmp(lkey->name, c, 16) != 0)
+            if (lkey == NULL)
             {
                 return PS_FAILURE; /* user claims to have added, but... */
             }
